@@ -9,7 +9,8 @@ from .. import graph
 from ..roles import node_calls
 from ..resolve import walk_scope
 from .common import fmt_facts, is_name, subscript_key
-from .c05 import canon_fact
+from .c05 import canon_fact, verdict_sources
+from .common import re_call_problem
 
 EXPLANATION = (
     'Static rule conformance on checker._ellipsis_match and its callers: R1 the matcher is called only from _check_match, edge-dominated by '
@@ -27,7 +28,7 @@ CM = 'xdoctest.checker._check_match'
 
 
 def run(ctx):
-    for fn in (r1_only_under_flag, r2_exact_without_marker, r3_bounds_reach_scan, r4_split_pattern):
+    for fn in (r1_only_under_flag, r2_exact_without_marker, r3_bounds_reach_scan, r4_split_pattern, r5_verdict_sources):
         ctx.rep.rule(fn, ctx)
 
 
@@ -200,6 +201,11 @@ def r3_bounds_reach_scan(ctx):
                'the scan can run although the anchored prefix and suffix overlap (as in want "aa...aa", got "aaa")', anchor=EM)
 
 
+def r5_verdict_sources(ctx):
+    """with ELLIPSIS off '...' has no special meaning: no positive verdict of check_output / _check_match bypasses the flag"""
+    verdict_sources(ctx, 'C06.R5')
+
+
 def r4_split_pattern(ctx):
     """the want is cut at the marker together with the whitespace around it; the pieces are literal text"""
     import re as _re
@@ -231,6 +237,9 @@ def r4_split_pattern(ctx):
     rep.ob('C06.R4', ctx.loc(f, c), 'split pattern %r' % pat, ok,
            'the want is cut at every literal marker, absorbing only the whitespace around it' if ok else
            'the split pattern is not  \\s* <escaped marker> \\s*  : other characters are absorbed or the marker is treated as a regex', anchor=EM)
+    prob = re_call_problem(c)
+    rep.ob('C06.R4', ctx.loc(f, c), 'every marker is a cut point', prob is None, 'the number of splits is not limited' if prob is None else
+           prob + ': only the first markers of a want act as wildcards, later ones are compared literally', anchor=EM)
     ok2 = is_name(c.args[1], f.node.args.args[1].arg) if len(c.args) > 1 else False
     rep.ob('C06.R4', ctx.loc(f, c), 'the want (not the got) is split', ok2, ctx.src(c, 80), nontrivial=False, anchor=EM)
     # the pieces are used as literal text (find / startswith / endswith), never as patterns
@@ -255,6 +264,8 @@ VARIANTS = [
     fire('no-marker-test-dropped', 'C06.R2', (CK, "    if ELLIPSIS_MARKER not in want:\n        return want == got\n", "")),
     fire('marker-not-escaped', 'C06.R4', (CK, "    ws = re.split(r'\\s*{}\\s*'.format(re.escape(ELLIPSIS_MARKER)), want,\n", "    ws = re.split(r'\\s*{}\\s*'.format(ELLIPSIS_MARKER), want,\n")),
     fire('split-absorbs-punctuation', 'C06.R4', (CK, "    ws = re.split(r'\\s*{}\\s*'.format(re.escape(ELLIPSIS_MARKER)), want,\n", "    ws = re.split(r'\\W*{}\\W*'.format(re.escape(ELLIPSIS_MARKER)), want,\n")),
+    fire('flags-in-maxsplit-slot', 'C06.R4', (CK, "                  flags=re.MULTILINE)\n    assert len(ws) >= 2\n", "                  re.MULTILINE)\n    assert len(ws) >= 2\n")),
+    fire('lone-ellipsis-fast-path', 'C06.R5', (CK, "        if got == want:\n            return True\n\n        if runstate is None:\n", "        if got == want:\n            return True\n\n        if want.strip() == ELLIPSIS_MARKER:\n            return True\n\n        if runstate is None:\n")),
     silent('bounds-via-slice', (CK, "        startpos = got.find(w, startpos, endpos)\n", "        startpos = got.find(w, startpos, endpos) if w else startpos\n")),
     silent('overlap-guard-rephrased', (CK, "    if startpos > endpos:\n", "    if endpos < startpos:\n")),
     silent('marker-test-positive-form', (CK, "    if ELLIPSIS_MARKER not in want:\n        return want == got\n", "    if not (ELLIPSIS_MARKER in want):\n        return got == want\n")),
